@@ -294,6 +294,8 @@ def _drive(case, root, fs, probes, sig):
     packed = False
     run_queries(3)
     lazy_shuffle = False
+    nfilters = 0
+    sig["nonunique_index"] = spec["index"]["kind"] == "nonunique"
     for si, step in enumerate(case["steps"]):
         op = step["op"]
         sig["last_step"] = op
@@ -301,6 +303,11 @@ def _drive(case, root, fs, probes, sig):
             lazy_shuffle = False
         if op == "filter" and lazy_shuffle:
             sig["filter_after_lazy_shuffle"] = True
+        if op in ("persist", "parquet", "pack"):
+            nfilters = 0
+        if op == "filter":
+            nfilters += 1
+            sig["two_or_more_chained_filters"] = nfilters >= 2
         probes[f"step_{op}"] = 1
         if op == "filter":
             if step["col"] not in template["other"]:
